@@ -23,3 +23,13 @@ package infer
 //@   requires nolocks()
 //@   site call Intn#1 assert [the-shared-random-source-is-used-under-its-lock] held(objectIDRandomLock)
 //@   ensures nolocks()
+//
+// The required flag of an inferred object member depends on that member alone (not on its siblings or
+// on the order in which the map is walked): required exactly when it is not an optional expression.
+//@ func Type
+//@   opt modular assumed
+//@   modifies nothing
+//@ func objectType
+//@   requires nolocks()
+//@   site call schema.NewPropertySchema#1 assert [a-member-is-required-exactly-when-it-is-not-an-optional-expression] \
+//@        callarg(schema.NewPropertySchema, 1, 2) == !typeis(inferredValue, *OptionalExpression) && callarg(schema.NewPropertySchema, 1, 0) == callres(Type, 1, 0)
